@@ -177,8 +177,16 @@ def random_case(rng, tier):
     for index in range(len(children)):
         if rng.random() < 0.25:
             schedule.append({'act': 'killchild', 'child': index, 'at': rng.randint(0, ticks + 2), 'msg': f'kill-c{index}'})
+    opts = {}
+    if rng.random() < 0.25:
+        # pause / play requests around the completions (same or neighbouring positions): the barrier and the fate of a failed
+        # item do not depend on them
+        positions = [a['at'] for a in schedule if 'at' in a] or [rng.randint(0, ticks + 2)]
+        for _ in range(rng.randint(1, 3)):
+            schedule.append({'act': rng.choice(['pause', 'pause', 'play']), 'at': max(0, rng.choice(positions) + rng.choice([0, 0, 0, 1, -1]))})
+        opts['final_play'] = True
     rng.shuffle(schedule)
-    return {'program': program, 'schedule': schedule, 'opts': {}, 'via': via}
+    return {'program': program, 'schedule': schedule, 'opts': opts, 'via': via}
 
 
 def shrink(case):
@@ -250,6 +258,8 @@ def _oracle(engine, result, case, drive):
     result.counters[f'items:{n_items}'] += 1
     result.counters[f'via:{case.get("via", "ret")}'] += 1
     result.counters[f'shape:{program.get("shape", "flat")}'] += 1
+    if any(r.action['act'] == 'pause' and r.pre_live for r in engine.records):
+        result.counters['probe:paused_around_completions'] += 1
     if len({k for k, _ in barriers['A']} & {k for k, _ in barriers['B']}):
         result.counters['probe:reassigned_key'] += 1
     for name in order:
